@@ -33,9 +33,9 @@ RULE = ("name lists of 1..3 persons; a person is a concatenation of tokens from 
 BOUND = {
     "quick": "single persons: every in-domain token sequence of length 1..4 one by one, every sequence of length 5 (15 blocks, "
              "759,375 sequences filtered to the domain), 800,000 seeded random sequences each of length 6 and 7; 6000 lists of 2..3 "
-             "persons drawn from the in-domain sequences of length <= 3 and from random names; 1500 documents through the stack",
+             "persons drawn from the in-domain sequences of length <= 3 and from random names; 1500 documents through the stack, plus documents pairing a person with its same-words twin of another structure",
     "thorough": "single persons: every in-domain token sequence of length 1..6 (blocks from length 5), 8 million seeded random "
-                "sequences each of length 7 and 8; 80000 lists of 2..3 persons; 15000 documents through the stack",
+                "sequences each of length 7 and 8; 80000 lists of 2..3 persons; 15000 documents through the stack, plus same-words twins",
 }
 EXHAUSTIVE = False
 
@@ -330,6 +330,18 @@ def generate(tier, rng):
         if list_in_domain(persons):
             done += 1
             yield "C14.functions", {"persons": persons}, True
+    # persons that share their words but not their structure, together in one document (one middleware instance)
+    done = 0
+    for base in ["Brinch Hansen, Per", "bb CC, AA"] + [p for p in pool if "," in p]:
+        tw = _twin(base)
+        if tw is None:
+            continue
+        for persons in ([base, tw], [tw, base]):
+            if list_in_domain(persons) and plain_for_grammar(" and ".join(persons)):
+                done += 1
+                yield "C14.stack", {"fields": [["author", persons]]}, True
+        if done >= (400 if tier == "quick" else 4000):
+            break
     done = 0
     while done < (1500 if tier == "quick" else 15000):
         keys = rng.sample(list(NAME_FIELDS), rng.choice([1, 1, 2, 3]))
@@ -337,6 +349,23 @@ def generate(tier, rng):
         if all(list_in_domain(p) and plain_for_grammar(" and ".join(p)) for _, p in fields):
             done += 1
             yield "C14.stack", {"fields": fields}, True
+
+
+def _twin(person):
+    """a second in-domain person with the same words in the same order but another part structure (e.g. the comma form
+    'Brinch Hansen, Per' and the comma-free 'Per Brinch Hansen'): anything that identifies persons by their words alone
+    confuses the two"""
+    try:
+        parts = _ref_parse(person)
+    except RefInvalidName:
+        return None
+    twin = " ".join(parts["first"] + parts["von"] + parts["last"] + parts["jr"])
+    try:
+        if twin == person or not in_domain(twin) or _ref_parse(twin) == parts:
+            return None
+    except RefInvalidName:
+        return None
+    return twin
 
 
 def known_witnesses():
